@@ -56,7 +56,7 @@ def fmtExcept (r : Except Fuzzy.Panic (List (Nat × Float))) : String :=
 /-- the model's own TF-IDF ranking (what a searcher built from the commands returns) -/
 def modelRank (d : Driver.Search.DS) : Bytes → List (Nat × Float) :=
   match d.tfIdx with
-  | some idx => fun q => Tfidf.search d.ri Float.sqrt 0.01 idx q d.db.size
+  | some idx => fun q => Tfidf.search d.ri Float.sqrt (Wtf.ScoreOps.ofQ Wtf.Gen.LegacyScore.tfidfMinSim) idx q d.db.size
   | none => fun _ => []
 
 def step2 (st : LS) (l : String) : Option (LS × String) :=
